@@ -113,6 +113,9 @@ func checkC02Dispatch(p *Prog, r *Report, md, ud, mr, mc *ssa.Function) {
 				found = true
 			}
 		}
+		if !found && k == "nil" && c02HasNullEdge(ud) {
+			found = true // no store needed: the fresh document's Data is nil, and the null literal is recognised
+		}
 		r.decide(found, "C02.kind-dispatch", "UnmarshalDocument:"+k+":no-unmarshal-branch", p.pos(ud.Pos()), "UnmarshalDocument can store a "+k+" into Data",
 			"MarshalDocument accepts "+k+" as primary data but UnmarshalDocument never stores a "+k+" into Data: such a document comes back with another kind of primary data")
 	}
@@ -560,6 +563,29 @@ func checkC02Order(p *Prog, r *Report, md, ud, mc, uc *ssa.Function) {
 					}
 				}
 			}
+			if len(es) == 0 {
+				// or the output list is preallocated and slot i is filled in
+				// iteration i (dest[i] = f(src[i])): the same order
+				for b := range cl.blocks {
+					for _, ins := range b.Instrs {
+						st, ok := ins.(*ssa.Store)
+						if !ok {
+							continue
+						}
+						ia, ok := st.Addr.(*ssa.IndexAddr)
+						if !ok || ia.Index != cl.idx {
+							continue
+						}
+						if _, isMk := ia.X.(*ssa.MakeSlice); !isMk {
+							if _, isPhi := ia.X.(*ssa.Phi); !isPhi {
+								continue
+							}
+						}
+						es = append(es, ins)
+						ev = st.Val
+					}
+				}
+			}
 			if len(es) > 0 {
 				chosen, emits, emitted = cl, es, ev
 			}
@@ -785,7 +811,11 @@ func checkC02Flow(p *Prog, r *Report, md, ud *ssa.Function) {
 		r.decide(isSkeField(e.Val, "Errors"), "C02.flow", "UnmarshalDocument:errors-whole", p.pos(e.Pos()), "doc.Errors = ske.Errors", "the errors are not taken over as a whole from the decoded errors member")
 	}
 	r.floor("Errors stores in UnmarshalDocument", len(errStores), 1)
-	r.floor("Data stores in UnmarshalDocument (or values a dispatch helper returns for one)", len(c02DataBranches(p, ud)), 3)
+	nData := len(c02DataBranches(p, ud))
+	if c02HasNullEdge(ud) {
+		nData++ // the null literal handled without a store
+	}
+	r.floor("Data stores in UnmarshalDocument (or values a dispatch helper returns for one)", nData, 3)
 	included := findCountedLoops(ud)
 	for _, ret := range okRets {
 		key := "UnmarshalDocument:return@" + p.pos(ret.Pos())
@@ -815,7 +845,15 @@ func checkC02Flow(p *Prog, r *Report, md, ud *ssa.Function) {
 						return true
 					}
 				}
-				return false
+				if bo, ok := cond.(*ssa.BinOp); ok && bo.Op == token.EQL && truth {
+					if z, ok := constInt(bo.Y); ok && z == 0 {
+						if c, _ := callOf(bo.X); c != nil && builtinName(c.Common()) == "len" && isSkeField(c.Common().Args[0], "Data") {
+							return true
+						}
+					}
+				}
+				// the literal null: Data keeps the nil of the fresh document
+				return c02IsNullEdge(cond, truth)
 			})
 		}()
 		r.decide(okData, "C02.flow", key+":data", p.pos(ret.Pos()), "data present => one of the Data stores executed", "a successful return is reached with a data member present but no primary data stored")
@@ -1120,16 +1158,23 @@ func tableEntries(mu *ssa.MapUpdate) []tableEntry {
 	if ld, isLd := elem.(*ssa.UnOp); isLd && ld.Op == token.MUL {
 		elem = ld.X
 	}
-	ia, isIA := elem.(*ssa.IndexAddr)
-	if !isIA {
-		return nil
-	}
 	var arr *ssa.Alloc
-	switch x := ia.X.(type) {
-	case *ssa.Slice:
-		arr, _ = x.X.(*ssa.Alloc)
-	case *ssa.Alloc:
-		arr = x
+	if ix, isIdx := elem.(*ssa.Index); isIdx {
+		// ranging over an array value: elem = (*arr)[i]
+		if ld, ok := ix.X.(*ssa.UnOp); ok && ld.Op == token.MUL {
+			arr, _ = ld.X.(*ssa.Alloc)
+		}
+	} else {
+		ia, isIA := elem.(*ssa.IndexAddr)
+		if !isIA {
+			return nil
+		}
+		switch x := ia.X.(type) {
+		case *ssa.Slice:
+			arr, _ = x.X.(*ssa.Alloc)
+		case *ssa.Alloc:
+			arr = x
+		}
 	}
 	if arr == nil {
 		return nil
@@ -1258,4 +1303,36 @@ func c02DataBranches(p *Prog, ud *ssa.Function) []dataBranch {
 		out = append(out, dataBranch{kindOf(st.Val), st.Val, st.Block(), ud, st.Pos(), nil})
 	})
 	return out
+}
+
+// c02IsNullEdge: the branch outcome says that the data member is the literal null.
+func c02IsNullEdge(cond ssa.Value, truth bool) bool {
+	bo, ok := cond.(*ssa.BinOp)
+	if !ok || (bo.Op != token.EQL && bo.Op != token.NEQ) {
+		return false
+	}
+	for _, pr := range [][2]ssa.Value{{bo.X, bo.Y}, {bo.Y, bo.X}} {
+		s, isC := constString(pr[1])
+		if !isC || s != "null" {
+			continue
+		}
+		cv, isCv := pr[0].(*ssa.Convert)
+		if !isCv {
+			continue
+		}
+		if _, fl, ok := fieldLoad(unbox(cv.X)); ok && fl == "Data" {
+			return (bo.Op == token.EQL) == truth
+		}
+	}
+	return false
+}
+
+func c02HasNullEdge(ud *ssa.Function) bool {
+	found := false
+	eachInstr(ud, func(ins ssa.Instruction) {
+		if ifi, ok := ins.(*ssa.If); ok && (c02IsNullEdge(ifi.Cond, true) || c02IsNullEdge(ifi.Cond, false)) {
+			found = true
+		}
+	})
+	return found
 }
